@@ -174,14 +174,16 @@ YOUTUBE_DOMAINS = [
 ]
 YOUTUBE_VIDEO_ID_RE = re.compile(r"^[a-zA-Z0-9_-]{11}$")
 YOUTUBE_CHANNEL_ID_RE = re.compile(r"^UC[a-zA-Z0-9_-]{22}$")
-QUERY_V_RE = re.compile(QUERY_VALUE_TEMPLATE % r"v", re.I)
+# NOTE: "v" must be a whole key ("utm_v=" is another item), found after a "&",
+# a "&amp;" written for it, or at the start of the query
+QUERY_V_RE = re.compile(r"(?:^|[&;]|%3B)v=([^&]+)", re.I)
 NEXT_V_RE = re.compile(r"next=%2Fwatch%3Fv%3D([^%&]+)", re.I)
 NESTED_NEXT_V_RE = re.compile(r"next%3D%252Fwatch%253Fv%253D([^%&]+)", re.I)
 FRAGMENT_V_RE = re.compile(
     r"^(?:%2F|/)watch(?:%3F|\?)v(?:%3D|=)([a-zA-Z0-9_-]{11})", re.I
 )
 # NOTE: the value of a query item stops where the fragment starts
-QUERY_LIST_RE = re.compile(r"list=([^&#]+)", re.I)
+QUERY_LIST_RE = re.compile(r"(?:[?&;]|%3B)list=([^&#]+)", re.I)
 
 YOUTUBE_VIDEO_URL_TEMPLATE = "https://www.youtube.com/watch?v=%s"
 YOUTUBE_USER_URL_TEMPLATE = "https://www.youtube.com/user/%s"
